@@ -132,6 +132,25 @@ def predSM (line : String) : String :=
     | _, _, _, _, _ => "parse-error"
   | _ => "bad-line"
 
+def parseIMStr (s : String) : Option IM :=
+  match s.toList.map (fun c => if c == 'F' then (-1 : Int) else if c == '0' then 0 else if c == '1' then 1 else if c == '2' then 2 else -9) with
+  | [a, b, c, d, e, f, g, h, i] => if [a, b, c, d, e, f, g, h, i].any (· == -9) then none else some ⟨a, b, c, d, e, f, g, h, i⟩
+  | _ => none
+
+/-- stream `immatrix`: `geom::IntersectionMatrix` answers from the model of Base/IM (the object of the `named_*_eq_pattern` theorems) -/
+def imMatrix (line : String) : String :=
+  match Driver.tokens line with
+  | ["M", m, dA, dB, pat] =>
+    match parseIMStr m, dA.toInt?, dB.toInt? with
+    | some m, some dA, some dB =>
+      let b (v : Bool) : Char := if v then '1' else '0'
+      let preds := [m.isDisjoint, m.isIntersects, m.isTouches dA dB, m.isCrosses dA dB, m.isWithin, m.isContains,
+                    m.isEquals dA dB, m.isOverlaps dA dB, m.isCovers, m.isCoveredBy]
+      let mt := m.matchesPat pat.toList
+      String.ofList (preds.map b) ++ " " ++ String.ofList [b mt, b mt] ++ " " ++ m.transpose.toStr
+    | _, _, _ => "parse-error"
+  | _ => "bad-line"
+
 end Driver.C01
 
 def main (args : List String) : IO UInt32 := do
@@ -139,4 +158,5 @@ def main (args : List String) : IO UInt32 := do
   | ["relate-grid"] => Driver.loop (← IO.getStdin) (← IO.getStdout) Driver.C01.check; return 0
   | ["refmatrix"] => Driver.loop (← IO.getStdin) (← IO.getStdout) Driver.C01.refOnly; return 0
   | ["pred-sm"] => Driver.loop (← IO.getStdin) (← IO.getStdout) Driver.C01.predSM; return 0
+  | ["immatrix"] => Driver.loop (← IO.getStdin) (← IO.getStdout) Driver.C01.imMatrix; return 0
   | _ => IO.eprintln "usage: drv_c01 relate-grid"; return 2
